@@ -794,7 +794,7 @@ func userArgMin(ta *ssa.TypeAssert) (int64, bool) {
 			return 0, false
 		}
 		f := call.Call.StaticCallee()
-		if f == nil || NameOf(f) != "ParseNum" || len(call.Call.Args) != 2 || !parseNumEnforcesMin(f) {
+		if f == nil || f.Blocks == nil || len(call.Call.Args) != 2 || !parseNumEnforcesMin(f) {
 			return 0, false
 		}
 		return ConstInt(call.Call.Args[0])
@@ -805,10 +805,81 @@ func userArgMin(ta *ssa.TypeAssert) (int64, bool) {
 // parseNumEnforcesMin: the closure returned by ParseNum returns a nil error
 // only where `v < min` (min the captured first parameter) is false.
 func parseNumEnforcesMin(f *ssa.Function) bool {
-	if len(f.AnonFuncs) != 1 {
+	if len(f.Params) == 0 {
 		return false
 	}
-	cl := f.AnonFuncs[0]
+	var cl *ssa.Function
+	// isMin: does v, in the parser's body, carry the factory's first parameter?
+	var isMin func(v ssa.Value) bool
+	switch {
+	case len(f.AnonFuncs) == 1:
+		cl = f.AnonFuncs[0]
+		isMin = func(v ssa.Value) bool {
+			return DependsOn(v, func(w ssa.Value) bool {
+				fv, ok := w.(*ssa.FreeVar)
+				return ok && fv.Name() == f.Params[0].Name()
+			})
+		}
+	default:
+		// a bound method of a record built from the parameters: the field that
+		// receives the first parameter is the minimum
+		var mc *ssa.MakeClosure
+		for _, b := range f.Blocks {
+			if ret, ok := b.Instrs[len(b.Instrs)-1].(*ssa.Return); ok && len(ret.Results) == 1 {
+				mc, _ = Unwrap(ret.Results[0]).(*ssa.MakeClosure)
+			}
+		}
+		if mc == nil || len(mc.Bindings) != 1 {
+			return false
+		}
+		w, _ := mc.Fn.(*ssa.Function)
+		if w == nil || len(w.Blocks) != 1 {
+			return false
+		}
+		for _, in := range w.Blocks[0].Instrs {
+			if call, ok := in.(*ssa.Call); ok && call.Call.StaticCallee() != nil {
+				cl = call.Call.StaticCallee()
+			}
+		}
+		if cl == nil || cl.Blocks == nil || len(cl.Params) == 0 {
+			return false
+		}
+		minField := ""
+		for _, b := range f.Blocks {
+			for _, in := range b.Instrs {
+				if st, ok := in.(*ssa.Store); ok && Unwrap(st.Val) == ssa.Value(f.Params[0]) {
+					if fa, ok := st.Addr.(*ssa.FieldAddr); ok {
+						if fld := FieldOf(fa); fld != nil {
+							minField = NameOf(fld)
+						}
+					}
+				}
+			}
+		}
+		if minField == "" {
+			return false
+		}
+		isMin = func(v ssa.Value) bool {
+			return DependsOn(v, func(w ssa.Value) bool {
+				n, x, ok := FieldNameOfRead(w)
+				if !ok || n != minField {
+					return false
+				}
+				if Unwrap(x) == ssa.Value(cl.Params[0]) {
+					return true
+				}
+				// a value receiver spilled to a local
+				if al, isAl := Unwrap(x).(*ssa.Alloc); isAl && al.Referrers() != nil {
+					for _, r := range *al.Referrers() {
+						if st, isSt := r.(*ssa.Store); isSt && st.Addr == ssa.Value(al) && st.Val == ssa.Value(cl.Params[0]) {
+							return true
+						}
+					}
+				}
+				return false
+			})
+		}
+	}
 	found := false
 	for _, b := range cl.Blocks {
 		ret, ok := b.Instrs[len(b.Instrs)-1].(*ssa.Return)
@@ -820,12 +891,6 @@ func parseNumEnforcesMin(f *ssa.Function) bool {
 			bo, isBin := g.Cond.(*ssa.BinOp)
 			if !isBin {
 				continue
-			}
-			isMin := func(v ssa.Value) bool {
-				return DependsOn(v, func(w ssa.Value) bool {
-					fv, ok := w.(*ssa.FreeVar)
-					return ok && fv.Name() == f.Params[0].Name()
-				})
 			}
 			if (bo.Op == token.LSS && isMin(bo.Y) && !g.Outcome) || (bo.Op == token.GEQ && isMin(bo.Y) && g.Outcome) ||
 				(bo.Op == token.GTR && isMin(bo.X) && !g.Outcome) || (bo.Op == token.LEQ && isMin(bo.X) && g.Outcome) {
